@@ -315,11 +315,12 @@ func (r *LayerManager) release(ctx context.Context, refspec reference.Spec, tocD
 	i := r.refcounter[refspec.String()][tocDigest.String()]
 	if i <= 0 {
 		// No reference to this layer. release it.
-		delete(r.refcounter, tocDigest.String())
+		delete(r.refcounter[refspec.String()], tocDigest.String())
 		if len(r.refcounter[refspec.String()]) == 0 {
 			delete(r.refcounter, refspec.String())
-			delete(r.resolveLayerCache, refspec.String()) // no reference to this image. So reset the resolve status as well.
 		}
+		// This layer is going away. So reset the resolve status of this image as well; the next lookup resolves it again.
+		delete(r.resolveLayerCache, refspec.String())
 		if r.layer == nil || r.layer[refspec.String()] == nil {
 			return 0, fmt.Errorf("layer of reference %q is not registered (ref=%d)", refspec, i)
 		}
